@@ -33,6 +33,17 @@ CHECKS = {
          "is computed by TLC from the projected faulted package (OpenOf/ApiOutcome); slide order and save/touch/save sequences included.",
     note="Trusted: as C01; fault injectors (zipfile+lxml). Slide traversal judged only when every sldId leads to a present slide part.",
     technique="TLA+ spec as outcome oracle + exhaustive single-fault enumeration per location, pairs sampled; traces validated by TLC"),
+ "C17": dict(
+    category="model_checking", design_ref="DESIGN.md §4 C17",
+    text="Geometry.tla: connector (Impl = the twelve-branch setters on offset/extent/flip, property = moved coordinate takes the value, "
+         "other three fixed, extents non-negative), group extents (recursive bounding box, upward recalculation) and freeform "
+         "(scaled bounding box with |obs-exact|<=1/2, path points = vertices - min, inside path extents). TLC checks Impl refines the "
+         "property over all bounded histories, emits one path per distinct state; the driver replays every path at several EMU scales and "
+         "fans out every assignment (connector) / replays every history (groups, all leaf kinds) / every pen case (freeform); TLC validates "
+         "every observed step. The connector refinement step is additionally discharged for unbounded integers with Apalache.",
+    note="Trusted: TLC, Apalache (inductive step on the transcription; bound to the code by zero drift in conformance). "
+         "Frames read from a:xfrm plus public readers. Empty sub-groups may or may not contribute their (0,0,0,0) frame (unspecified).",
+    technique="TLA+ two-layer state machines + TLC exhaustive refinement + transition-complete replay + TLC trace validation; Apalache inductive step"),
  "C19": dict(
     category="model_checking", design_ref="DESIGN.md §4 C19",
     text="PackUri.tla defines part-name arithmetic (Dir/Filename/Ext/Idx/Member/RelsUri, RFC 3986 Resolve, RelRef); TLC proves the "
